@@ -150,7 +150,7 @@ func ruleOptWriters(p *Prog, r *Report) {
 		}
 	}
 	for n := range optWriters {
-		if p.Globals[n] == nil {
+		if p.Globals[n] == nil && !derivedOptionVar[n] {
 			r.Anchor(rule, n)
 		}
 	}
@@ -215,7 +215,9 @@ func ruleOptDead(p *Prog, r *Report, aliases ...string) {
 		}
 		g := p.Globals[n]
 		if g == nil {
-			r.Anchor(rule, n)
+			if !derivedOptionVar[n] {
+				r.Anchor(rule, n)
+			}
 			continue
 		}
 		var readers []string
@@ -1177,6 +1179,10 @@ func rulePairDerived(p *Prog, r *Report) {
 	// trimRunes
 	dt, tr := p.Globals["mxj.disableTrimWhiteSpace"], p.Globals["mxj.trimRunes"]
 	fn := p.Fn("mxj.DisableTrimWhiteSpace")
+	if dt != nil && tr == nil && fn != nil {
+		r.OK(rule, p.Name(fn), "mxj.trimRunes follows the flag", p.Pos(fn.Pos()), "there is no derived cut-set variable: the cut set is computed from the flag where it is used")
+		return
+	}
 	if dt == nil || tr == nil || fn == nil {
 		r.Anchor(rule, "mxj.DisableTrimWhiteSpace")
 		return
@@ -1369,7 +1375,9 @@ func ruleOptScope(p *Prog, r *Report, groups ...string) {
 		for _, vn := range sp.Forbid {
 			g := p.Globals[vn]
 			if g == nil {
-				r.Anchor(rule, vn)
+				if !derivedOptionVar[vn] {
+					r.Anchor(rule, vn)
+				}
 				continue
 			}
 			var offenders []string
@@ -1427,3 +1435,7 @@ func uniq(s []string) []string {
 }
 
 var _ = types.Typ
+
+// derivedOptionVar: package variables that only cache something computable from an option proper; a tree that computes the value
+// where it is needed has no such variable, and no rule is owed for it.
+var derivedOptionVar = map[string]bool{"mxj.trimRunes": true, "mxj.lenAttrPrefix": true}
